@@ -48,6 +48,7 @@ struct MAttr
   unsigned writes       = 0;
   unsigned type_changes = 0;
   std::vector<std::string> earlier;  // canonical values that were overwritten (most recent last)
+  std::string first;                 // the very first value written to the key
 };
 typedef std::map<std::string, MAttr> MAttrs;
 
@@ -61,6 +62,7 @@ inline bool model_set(MAttrs &m, const std::string &k, const MV &v)
     MAttr a;
     a.v      = v;
     a.canon  = c;
+    a.first  = c;
     a.writes = 1;
     m.emplace(k, std::move(a));
   }
@@ -563,7 +565,7 @@ inline bool cmp_attrs(const MAttrs &want, const OAttrs &got, const std::string &
     if (it->second == kv.second.canon)
       continue;
     ok = false;
-    bool earlier = false;
+    bool earlier = kv.second.writes > 1 && kv.second.first == it->second;
     for (auto &e : kv.second.earlier)
       earlier |= e == it->second;
     std::string d = "key " + vf::show(kv.first, 40) + " got " + vf::show(it->second, 80) + " want " +
